@@ -246,6 +246,25 @@ void Mul::dict_add_term_new(const Ptr<RCP<const Number>> &coef,
             } else if (down_cast<const Integer &>(*(it->second)).is_zero()) {
                 d.erase(it);
                 return;
+            } else if (is_a<Pow>(*it->first)) {
+                // (b**e)**n with an integer n is b**(e*n): let pow() fold it
+                // and multiply the canonical result back in
+                RCP<const Basic> r = pow(it->first, it->second);
+                d.erase(it);
+                if (is_a<Mul>(*r)) {
+                    RCP<const Mul> m = rcp_static_cast<const Mul>(r);
+                    imulnum(outArg(*coef), m->coef_);
+                    for (auto &p : m->dict_) {
+                        Mul::dict_add_term_new(coef, d, p.second, p.first);
+                    }
+                } else if (is_a_Number(*r)) {
+                    imulnum(outArg(*coef), rcp_static_cast<const Number>(r));
+                } else {
+                    RCP<const Basic> exp2, t2;
+                    Mul::as_base_exp(r, outArg(exp2), outArg(t2));
+                    Mul::dict_add_term_new(coef, d, exp2, t2);
+                }
+                return;
             }
         } else if (is_a<Rational>(*it->second)) {
             if (is_a<Integer>(*t) or is_a<Rational>(*t)) {
